@@ -165,3 +165,25 @@ package outbound
 //@   at return 7 assert err == nil && policy != nil && policy.Policy == consts.DialerSelectionPolicy_Fixed && !f.Not && len(f.Params) == 1 && f.Params[0].Key == "" && policy.FixedIndex == index
 //@   at call strconv.Atoi#1 assert a0 == f.Params[0].Val
 //@   at return 8 assert err != nil && policy == nil
+
+// C14 (every subscription node is offered to the group): the node list of every tag is walked to its end;
+// a node that fails to parse is skipped, not a reason to stop.
+//@ func NewDialerSetFromLinksContext
+//@   anchorsonly
+//@   dyncalls noeffect
+//@   modifies *
+//@   at call NewFromLinkContext#1 assert a3 == node && a4 == subscriptionTag
+//@   loop 2
+//@     exit $idx == len(nodes)
+
+// C16 (reload floor): every one of the six standard network types is looked at - the walk does not stop
+// after the first type that needed a fallback - and the dialer revived for a type is the captured
+// fallback for that type or, without one, the group's first dialer.
+//@ func (*DialerGroup).EnsureReloadSelectionFloor
+//@   anchorsonly
+//@   dyncalls noeffect
+//@   modifies *
+//@   ensures g != nil ==> calls("MustGetAliveDialerSet") == 6
+//@   at call MarkAliveForReloadFallback#1 assert a0 != nil && a1 == nt
+//@   loop 1
+//@     invariant calls("MustGetAliveDialerSet") == $idx
